@@ -967,7 +967,8 @@ Section XmlOracles.
      only) or the first child is an element *)
   Definition first_is_elem (ch : list xnode) : bool := match ch with [] => true | XElem _ _ _ :: _ => true | _ => false end.
 
-  (* root = true: the scope is opened by the root scope, which only requires an element *)
+  (* root = true: the scope is opened BY KEY from the root scope, which only requires an element; without a key the root
+     scope tests the first child like every nested scope (commit b0f5582) *)
   Fixpoint load_xml_inner (o : opts) (root : bool) (t : ty) (x : xnode) {struct t} : lout :=
     match x with
     | XText s =>
@@ -1053,7 +1054,7 @@ Section XmlOracles.
       let named := match rootkey with Some k => list_eqb k (elem_name root) | None => true end in
       if negb named then Ok (default t)
       else
-        match load_xml_inner o true t root with
+        match load_xml_inner o (match rootkey with Some _ => true | None => false end) t root with
         | Loaded v => Ok v
         | NotLoaded => Ok (default t)
         | Failed e => Err e
